@@ -1,6 +1,6 @@
 ----------------------------- MODULE RedisModel -----------------------------
 (***************************************************************************)
-(* Sequential Redis semantics for the commands of this server (no expiry): *)
+(* Sequential Redis semantics for the commands of this server:             *)
 (* the reference for C12 (framework-derived commands over a faithful       *)
 (* store) and C18 (the bundled example store).  Written from the Redis     *)
 (* command reference.                                                      *)
@@ -11,6 +11,11 @@
 (*   [ty |-> "set", s |-> set of bytes]                                    *)
 (*   [ty |-> "zset", z |-> set of [m |-> bytes, s |-> Int]]                *)
 (* Scores are integers (TLC has no floats); bounds may be -inf/+inf.       *)
+(* Every entry also has x: the time to live in seconds as it was last set  *)
+(* (0 = the key is persistent).  Time does not pass in the model: a TTL    *)
+(* reply is compared with a window (cmp "alt": x or x - 1), and programs   *)
+(* use expiries far longer than a run.  What the model does state is which *)
+(* commands keep, clear, set or move a key's expiry.                       *)
 (*                                                                         *)
 (* Exec(ks, name, args) = [reply, ks, cmp]; cmp says how the observed      *)
 (* reply is compared: "exact", "bag" (array in any order), "pairs"         *)
@@ -21,7 +26,10 @@ EXTENDS RESP, Glob
 
 EmptyKS == [k \in {} |-> 0]
 Has(ks, k) == k \in DOMAIN ks
-Put(ks, k, e) == [x \in DOMAIN ks \cup {k} |-> IF x = k THEN e ELSE ks[x]]
+XOf(ks, k) == IF Has(ks, k) THEN ks[k].x ELSE 0
+WithX(e, x) == [f \in DOMAIN e \cup {"x"} |-> IF f = "x" THEN x ELSE e[f]]
+PutX(ks, k, e, x) == [y \in DOMAIN ks \cup {k} |-> IF y = k THEN WithX(e, x) ELSE ks[y]]
+Put(ks, k, e) == PutX(ks, k, e, XOf(ks, k))       \* modifying a key keeps its time to live
 Drop(ks, k) == [x \in DOMAIN ks \ {k} |-> ks[x]]
 IsTy(ks, k, ty) == Has(ks, k) /\ ks[k].ty = ty
 
@@ -154,14 +162,16 @@ HashPut(ks, k, h) == IF h = {} THEN Drop(ks, k) ELSE Put(ks, k, [ty |-> "hash", 
 HFields(h) == {p[1] : p \in h}
 HGetV(h, f) == (CHOOSE p \in h : p[1] = f)[2]
 HSetV(h, f, v) == {p \in h : p[1] # f} \cup {<<f, v>>}
-StrPut(ks, k, v) == Put(ks, k, [ty |-> "string", v |-> v])
+StrPut(ks, k, v) == Put(ks, k, [ty |-> "string", v |-> v])              \* APPEND, INCR..: the expiry stays
+StrSet(ks, k, v) == PutX(ks, k, [ty |-> "string", v |-> v], 0)          \* SET and its relatives: the key becomes persistent
+StrSetX(ks, k, v, x) == PutX(ks, k, [ty |-> "string", v |-> v], x)
 GetReply(ks, k) == IF IsTy(ks, k, "string") THEN Bulk(StrOf(ks, k)) ELSE Null
 
 TypeOK(ks, k, ty) == ~Has(ks, k) \/ ks[k].ty = ty          \* programs use each key with one type; otherwise not modelled
 
 \* fold helpers over argument lists
 RECURSIVE SetPairs(_, _, _)          \* MSET / HMSET: later pairs win
-SetPairs(ks, ts, i) == IF i > Len(ts) THEN ks ELSE SetPairs(StrPut(ks, Str8(ts[i]), Str8(ts[i + 1])), ts, i + 2)
+SetPairs(ks, ts, i) == IF i > Len(ts) THEN ks ELSE SetPairs(StrSet(ks, Str8(ts[i]), Str8(ts[i + 1])), ts, i + 2)
 RECURSIVE HSetPairs(_, _, _)
 HSetPairs(h, ts, i) == IF i > Len(ts) THEN h ELSE HSetPairs(HSetV(h, Str8(ts[i]), Str8(ts[i + 1])), ts, i + 2)
 RECURSIVE PushAll(_, _, _, _)
@@ -190,13 +200,19 @@ Exec(ks, name, args) ==
   IF ~AllStr(args) THEN NotModelled(ks) ELSE
   LET n == Len(args) IN
   CASE name = "GET" /\ n = 1 /\ TypeOK(ks, A(args, 1), "string") -> Res(GetReply(ks, A(args, 1)), ks)
-    [] name = "SET" /\ n = 2 -> Res(Str(<<79, 75>>), StrPut(ks, A(args, 1), A(args, 2)))
+    [] name = "SET" /\ n = 2 -> Res(Str(<<79, 75>>), StrSet(ks, A(args, 1), A(args, 2)))
     [] name = "SET" /\ n = 3 /\ args[3].k = "word" /\ args[3].w = "XX" /\ TypeOK(ks, A(args, 1), "string") ->
-         IF Has(ks, A(args, 1)) THEN Res(Str(<<79, 75>>), StrPut(ks, A(args, 1), A(args, 2))) ELSE Res(Null, ks)
+         IF Has(ks, A(args, 1)) THEN Res(Str(<<79, 75>>), StrSet(ks, A(args, 1), A(args, 2))) ELSE Res(Null, ks)
     [] name = "SET" /\ n = 3 /\ args[3].k = "word" /\ args[3].w = "GET" /\ TypeOK(ks, A(args, 1), "string") ->
-         Res(GetReply(ks, A(args, 1)), StrPut(ks, A(args, 1), A(args, 2)))
-    [] name = "GETSET" /\ n = 2 /\ TypeOK(ks, A(args, 1), "string") -> Res(GetReply(ks, A(args, 1)), StrPut(ks, A(args, 1), A(args, 2)))
-    [] name = "SETNX" /\ n = 2 -> IF Has(ks, A(args, 1)) THEN Res(IntR(0), ks) ELSE Res(IntR(1), StrPut(ks, A(args, 1), A(args, 2)))
+         Res(GetReply(ks, A(args, 1)), StrSet(ks, A(args, 1), A(args, 2)))
+    [] name = "SET" /\ n = 3 /\ args[3].k = "word" /\ args[3].w = "KEEPTTL" ->
+         Res(Str(<<79, 75>>), StrSetX(ks, A(args, 1), A(args, 2), XOf(ks, A(args, 1))))
+    [] name = "SET" /\ n = 4 /\ args[3].k = "word" /\ args[3].w = "EX" /\ IsInt(args[4]) /\ args[4].big = "" /\ args[4].n > 0 ->
+         Res(Str(<<79, 75>>), StrSetX(ks, A(args, 1), A(args, 2), args[4].n))
+    [] name = "SETEX" /\ n = 3 /\ IsInt(args[2]) /\ args[2].big = "" /\ args[2].n > 0 ->
+         Res(Str(<<79, 75>>), StrSetX(ks, A(args, 1), A(args, 3), args[2].n))
+    [] name = "GETSET" /\ n = 2 /\ TypeOK(ks, A(args, 1), "string") -> Res(GetReply(ks, A(args, 1)), StrSet(ks, A(args, 1), A(args, 2)))
+    [] name = "SETNX" /\ n = 2 -> IF Has(ks, A(args, 1)) THEN Res(IntR(0), ks) ELSE Res(IntR(1), StrSet(ks, A(args, 1), A(args, 2)))
     [] name = "MSET" /\ n >= 2 /\ n % 2 = 0 -> Res(Str(<<79, 75>>), SetPairs(ks, args, 1))
     [] name = "MSETNX" /\ n >= 2 /\ n % 2 = 0 ->
          IF \E i \in 1..(n \div 2) : Has(ks, A(args, 2 * i - 1)) THEN Res(IntR(0), ks) ELSE Res(IntR(1), SetPairs(ks, args, 1))
@@ -223,11 +239,27 @@ Exec(ks, name, args) ==
     [] name = "RENAME" /\ n = 2 ->
          IF ~Has(ks, A(args, 1)) THEN ErrReply
          ELSE IF A(args, 1) = A(args, 2) THEN Res(Str(<<79, 75>>), ks)
-         ELSE Res(Str(<<79, 75>>), Put(Drop(ks, A(args, 1)), A(args, 2), ks[A(args, 1)]))
+         ELSE Res(Str(<<79, 75>>), PutX(Drop(ks, A(args, 1)), A(args, 2), ks[A(args, 1)], ks[A(args, 1)].x))   \* the expiry moves with the value
     [] name = "RENAMENX" /\ n = 2 ->
          IF ~Has(ks, A(args, 1)) THEN ErrReply
          ELSE IF Has(ks, A(args, 2)) THEN Res(IntR(0), ks)
-         ELSE Res(IntR(1), Put(Drop(ks, A(args, 1)), A(args, 2), ks[A(args, 1)]))
+         ELSE Res(IntR(1), PutX(Drop(ks, A(args, 1)), A(args, 2), ks[A(args, 1)], ks[A(args, 1)].x))
+    \* expiry.  EXPIRE key seconds [NX | XX | GT | LT]: a non-positive time deletes the key; a persistent key counts as
+    \* an infinite time to live for GT / LT
+    [] name = "EXPIRE" /\ n \in {2, 3} /\ IsInt(args[2]) /\ args[2].big = "" /\ (n = 3 => args[3].k = "word" /\ args[3].w \in {"NX", "XX", "GT", "LT"}) ->
+         LET k == A(args, 1) t == args[2].n cur == XOf(ks, k) w == IF n = 3 THEN args[3].w ELSE "" IN
+         IF ~Has(ks, k) THEN Res(IntR(0), ks)
+         \* the same number of seconds as the current expiry under GT / LT: whether the new deadline is later depends on
+         \* the clock's resolution; either answer, and the expiry is t in both cases
+         ELSE IF w \in {"GT", "LT"} /\ cur # 0 /\ t = cur THEN [reply |-> IntR(1), ks |-> ks, cmp |-> "alt", alt |-> IntR(0)]
+         ELSE IF (w = "NX" /\ cur # 0) \/ (w = "XX" /\ cur = 0) \/ (w = "GT" /\ (cur = 0 \/ t <= cur)) \/ (w = "LT" /\ cur # 0 /\ t >= cur)
+              THEN Res(IntR(0), ks)
+         ELSE IF t <= 0 THEN Res(IntR(1), Drop(ks, k))
+         ELSE Res(IntR(1), PutX(ks, k, ks[k], t))
+    [] name = "TTL" /\ n = 1 ->
+         IF ~Has(ks, A(args, 1)) THEN Res(IntR(0 - 2), ks)
+         ELSE IF XOf(ks, A(args, 1)) = 0 THEN Res(IntR(0 - 1), ks)
+         ELSE [reply |-> IntR(XOf(ks, A(args, 1))), ks |-> ks, cmp |-> "alt", alt |-> IntR(XOf(ks, A(args, 1)) - 1)]
     [] name = "KEYS" /\ n = 1 -> ResC(BulkArr(SetToSeq({k \in DOMAIN ks : Match(A(args, 1), k)})), ks, "bag")
     \* one complete SCAN call (cursor 0, COUNT larger than the keyspace): the selected keys; the cursor value is not judged
     [] name = "SCAN" /\ n = 5 /\ IsInt(args[1]) /\ args[1].big = "" /\ args[1].n = 0 /\ args[2].k = "word" /\ args[2].w = "MATCH"
@@ -333,5 +365,6 @@ ReplyMatches(r, v) ==
     [] r.cmp = "pairs" -> v.t = "arr" /\ Len(v.e) = Len(r.reply.e) /\ PairsOf(v) = PairsOf(r.reply)
     [] r.cmp = "scan"  -> /\ v.t = "arr" /\ Len(v.e) = 2 /\ v.e[1].t = "bulk" /\ v.e[2].t = "arr"
                           /\ Len(v.e[2].e) = Len(r.reply.e[2].e) /\ BagOf(v.e[2]) = BagOf(r.reply.e[2])
+    [] r.cmp = "alt"   -> v = r.reply \/ v = r.alt      \* TTL: up to one second may have passed
     [] OTHER -> TRUE
 =============================================================================
